@@ -1,27 +1,30 @@
 (* WinReLocal.v -- re-entering expose handlers, part 3(b): what ONE call into the window layer
    does, seen from one screen cell q0.
 
-   Gd T0 s: the tree of s has unique ids and the skeleton of T0, its root is visible, and the
-   damage set is in order (DmgOK).  Every call (tickit_window_expose / show / hide / restack,
-   show and hide not aimed at the root) keeps Gd (run_act_gd), only ever adds to the covered
-   region (run_act_cov_mono), and -- the locality fact -- if q0 is not covered afterwards,
-   every window that mattered at q0 before the call (rel_ids) still has the visibility flag it
-   had (run_act_local): a show or hide of such a window exposes a region containing q0.
+   G0 rid s: the forest of s (the tree and the detached subtrees) has unique ids, the root has
+   id rid and is visible, the damage set is in order (DmgOK).  Gd rid T P s adds what ties s to
+   the tree T a traversal walks: the tree of s comes from T by flag changes and by cutting out
+   windows that are now roots of detached subtrees (evolves), and every window still in the
+   tree has the parent P gives.
 
-   Hence each handler call is a step in the sense of WinReTrav.St (re_handler_step). *)
-From Coq Require Import ZArith List Bool Lia ZifyBool.
+   Every call (tickit_window_expose / show / hide / restack / close / destroy; show and hide
+   not aimed at the root) keeps both, only ever adds to the covered region
+   (run_act_cov_mono), and -- the locality fact -- if q0 is not covered afterwards, every
+   window that mattered at q0 before the call (rel_ids) has kept its visibility flag, and its
+   parent unless it was invisible (run_act_local): a show, hide or close of such a window
+   exposes a region containing q0.  Hence each handler call is a step in the sense of
+   WinReTrav.St and WinReTrav.St0 (re_handler_step, re_handler_step0). *)
+From Coq Require Import ZArith List Bool Lia ZifyBool Permutation.
 From Tickit Require Import RectDefs RectProofs WinRectSet WinRectSetProofs WinDefs WinHist WinSpec
   WinExposeProofs WinFlushProofs WinLogDisjoint WinScreenInv WinLocality WinLocFocus WinPreserve
-  WinReDefs WinReProofs WinReFlags WinReStatic WinReLive WinReTrav.
+  WinInput WinReDefs WinReProofs WinReFlags WinReStatic WinReLive WinReTrav.
+From Tickit Require WinInputProofs.
 Import ListNotations.
 Local Open Scope Z_scope.
 Local Strategy 1000 [rsfuel].
 
 Definition act_ok (rootid : Z) (a : ract) : Prop :=
-  match a with RShow w | RHide w => w <> rootid | RExpose _ _ | RRestack _ _ => True end.
-
-Definition Gd (T0 : wtree) (s : root) : Prop :=
-  NoDup (t_ids (r_tree s)) /\ skel (r_tree s) = skel T0 /\ w_vis (t_info (r_tree s)) = true /\ DmgOK s.
+  match a with RShow w | RHide w => w <> rootid | _ => True end.
 
 (* ------------------------------------------------------------------------------------ *)
 (* show and hide, unfolded                                                               *)
@@ -131,9 +134,6 @@ Proof.
   rewrite Z.eqb_refl. reflexivity.
 Qed.
 
-(* ------------------------------------------------------------------------------------ *)
-(* the tree after one call                                                               *)
-
 Lemma chain_cases y t :
   NoDup (t_ids t) -> y <> t_id t ->
   t_chain y t = None \/ exists w p rest, t_chain y t = Some (w :: p :: rest).
@@ -145,45 +145,259 @@ Proof.
   - left. reflexivity.
 Qed.
 
-(* skeleton and flags of the tree after a call *)
-Lemma run_act_tree cfg s a :
-  NoDup (t_ids (r_tree s)) -> act_ok (t_id (r_tree s)) a ->
-  skel (r_tree (run_act cfg s a)) = skel (r_tree s) /\
-  forall x, (match a with RShow y | RHide y => x <> y | _ => True end) ->
-            vis_now (run_act cfg s a) x = vis_now s x.
+(* ------------------------------------------------------------------------------------ *)
+(* close, unfolded                                                                       *)
+
+Definition close_tree (y : Z) (p : wtree) (t : wtree) : wtree :=
+  t_update (fun j => if opt_eqb (w_fchild j) y then set_fchild j None else j) (t_id p)
+           (t_upd_kids (kids_remove y) (t_id p) t).
+
+Lemma win_close_unfold cfg s y w p rest :
+  t_chain y (r_tree s) = Some (w :: p :: rest) ->
+  exists st1, same_dmg s st1 /\ r_tree st1 = close_tree y p (r_tree s) /\
+    win_close cfg s y = if w_vis (t_info w) then win_expose st1 (t_id p) (Some (w_rect (t_info w))) else st1.
 Proof.
-  intros Hu Hok. destruct a as [id r|y|y|k id]; cbn [run_act act_ok] in *.
-  - split; [rewrite win_expose_tree; reflexivity|]. intros x _.
-    rewrite !vis_now_in, win_expose_tree. reflexivity.
-  - destruct (chain_cases y _ Hu Hok) as [E|(w & p & rest & E)].
-    + unfold win_show. rewrite E. split; reflexivity.
-    + rewrite (win_show_unfold cfg s y w p rest E). split.
-      * rewrite win_expose_tree, r_tree_show_pre. apply show_tree_skel.
-      * intros x Hx. rewrite !vis_now_in, win_expose_tree, r_tree_show_pre. apply show_tree_vis. exact Hx.
-  - destruct (chain_cases y _ Hu Hok) as [E|(w & p & rest & E)].
-    + unfold win_hide. rewrite E. split; reflexivity.
-    + rewrite (win_hide_unfold cfg s y w p rest E). split.
-      * rewrite win_expose_tree, r_tree_hide_pre. apply hide_tree_skel.
-      * intros x Hx. rewrite !vis_now_in, win_expose_tree, r_tree_hide_pre. apply hide_tree_vis. exact Hx.
-  - split; [rewrite win_restack_tree; reflexivity|]. intros x _.
-    rewrite !vis_now_in, win_restack_tree. reflexivity.
+  intros Hch. unfold win_close. rewrite Hch. cbv zeta. fold (close_tree y p (r_tree s)).
+  set (tr2 := close_tree y p (r_tree s)).
+  set (st00 := set_queue (set_orphans (set_tree s tr2) (w :: r_orphans s))
+                         (filter (fun e => match e with (_, _, w') => negb (id_in w' (sub_ids w)) end) (r_queue s))).
+  set (st0 := match r_dsrc st00 with
+              | Some src => if negb (d_drag_stale cfg) && id_in src (sub_ids w)
+                            then set_drag st00 (r_dragging st00) (r_lbtn st00) (r_lline st00) (r_lcol st00) None
+                            else st00
+              | None => st00
+              end).
+  set (st1 := if opt_eqb (w_fchild (t_info p)) y && negb (d_chain_norestore cfg)
+              then request_restore st0 else st0).
+  assert (H00 : same_dmg s st00 /\ r_tree st00 = tr2).
+  { split; [|reflexivity].
+    unfold same_dmg, st00; cbn [r_damage r_fault r_queue r_nexp r_later r_tree set_queue set_orphans set_tree].
+    split; [reflexivity|]. split; [reflexivity|]. split.
+    - intros H E. apply H. rewrite E. reflexivity.
+    - split; [reflexivity|]. split; [tauto|].
+      unfold tr2, close_tree. rewrite update_root_rect by apply keeps_rect_unlink.
+      rewrite upd_kids_root_info. reflexivity. }
+  assert (H0 : same_dmg s st0 /\ r_tree st0 = tr2).
+  { unfold st0. destruct (r_dsrc st00) as [src|]; [|exact H00].
+    destruct (negb (d_drag_stale cfg) && id_in src (sub_ids w)); [|exact H00].
+    destruct H00 as [A B]. split; [|exact B].
+    unfold same_dmg in *; cbn [r_damage r_fault r_queue r_nexp r_later r_tree set_drag]. exact A. }
+  exists st1. destruct H0 as [A B]. split; [unfold st1; apply same_dmg_cond; exact A|].
+  split; [unfold st1; rewrite r_tree_cond; exact B|reflexivity].
 Qed.
 
-Theorem run_act_gd cfg T0 s a : Gd T0 s -> act_ok (t_id T0) a -> Gd T0 (run_act cfg s a).
+Lemma win_close_noop cfg s y :
+  NoDup (t_ids (r_tree s)) -> (t_find y (r_tree s) = None \/ y = t_id (r_tree s)) -> win_close cfg s y = s.
 Proof.
-  intros (Hu & Hsk & Hrv & HD) Hok.
-  assert (Hid : t_id (r_tree s) = t_id T0).
-  { destruct (skel_eq_root _ _ Hsk) as [H _]. exact H. }
-  rewrite <- Hid in Hok.
-  destruct (run_act_tree cfg s a Hu Hok) as [Hsk' Hvis].
-  split; [|split; [|split]].
-  - rewrite (skel_eq_ids _ _ Hsk'). exact Hu.
-  - rewrite Hsk'. exact Hsk.
-  - assert (Hid' : t_id (r_tree (run_act cfg s a)) = t_id (r_tree s)).
-    { destruct (skel_eq_root _ _ Hsk') as [H _]. exact H. }
-    rewrite <- vis_in_root, Hid', <- vis_now_in, Hvis, vis_now_in, vis_in_root; [exact Hrv|].
-    destruct a; cbn [act_ok] in Hok; try exact I; intros E; apply Hok; symmetry; exact E.
-  - apply run_act_dmgok. exact HD.
+  intros Hu [Hn| ->].
+  - unfold win_close. destruct (in_dec Z.eq_dec y (t_ids (r_tree s))) as [Hin|Hnin].
+    + destruct (t_find_some y _ Hu Hin) as [n E]. congruence.
+    + unfold t_chain. rewrite (t_path_notin _ _ Hnin). reflexivity.
+  - unfold win_close, t_chain. rewrite path_self. reflexivity.
+Qed.
+
+(* ------------------------------------------------------------------------------------ *)
+(* the invariants                                                                        *)
+
+Definition G0 (rid : Z) (s : root) : Prop :=
+  IP.ids_unique s /\ t_id (r_tree s) = rid /\ w_vis (t_info (r_tree s)) = true /\ DmgOK s.
+
+(* every window still in the tree has the parent P says *)
+Definition ParKeep (P : Z -> option Z) (s : root) : Prop :=
+  forall x, In x (t_ids (r_tree s)) -> x <> t_id (r_tree s) -> f_parent s x = P x.
+
+Definition Gd (rid : Z) (T : wtree) (P : Z -> option Z) (s : root) : Prop :=
+  G0 rid s /\
+  (exists D, evolves T (r_tree s) D /\ forall x, In x D -> In x (map t_id (r_orphans s))) /\
+  ParKeep P s.
+
+(* ------------------------------------------------------------------------------------ *)
+(* what a call does to the forest                                                        *)
+
+(* the calls that keep the shape of the forest: everything but an effective close *)
+Definition keeps_forest (s s' : root) (y : option Z) : Prop :=
+  skel (r_tree s') = skel (r_tree s) /\ r_orphans s' = r_orphans s /\
+  (forall T D, evolves T (r_tree s) D -> evolves T (r_tree s') D) /\
+  (forall x, y <> Some x -> vis_in (r_tree s') x = vis_in (r_tree s) x).
+
+Lemma keeps_forest_refl s y : keeps_forest s s y.
+Proof. unfold keeps_forest. tauto. Qed.
+
+Lemma keeps_forest_tree s s' y :
+  r_tree s' = r_tree s -> r_orphans s' = r_orphans s -> keeps_forest s s' y.
+Proof. intros E1 E2. unfold keeps_forest. rewrite E1, E2. tauto. Qed.
+
+Lemma win_expose_orphans st id ex : r_orphans (win_expose st id ex) = r_orphans st.
+Proof. apply IP.win_expose_forest. Qed.
+
+Lemma orphans_cond (b : bool) s : r_orphans (if b then request_restore s else s) = r_orphans s.
+Proof. destruct b; reflexivity. Qed.
+
+(* the window shown / hidden by a call *)
+Definition act_target (a : ract) : option Z :=
+  match a with RShow y | RHide y => Some y | _ => None end.
+
+Lemma run_act_forest cfg rid s a :
+  IP.ids_unique s -> t_id (r_tree s) = rid -> act_ok rid a ->
+  keeps_forest s (run_act cfg s a) (act_target a) \/
+  exists w n0, (a = RClose w \/ a = RDestroy w) /\ t_find w (r_tree s) = Some n0 /\ w <> rid.
+Proof.
+  intros Hfu Hrid Hok. pose proof (forest_tree_nodup s Hfu) as Hu.
+  assert (Hclose : forall w, keeps_forest s (win_close cfg s w) None \/
+                             exists n0, t_find w (r_tree s) = Some n0 /\ w <> rid).
+  { intros w. destruct (t_find w (r_tree s)) as [n0|] eqn:Ef.
+    - destruct (Z.eq_dec w rid) as [->|Hne].
+      + left. rewrite win_close_noop; [apply keeps_forest_refl|exact Hu|right; symmetry; exact Hrid].
+      + right. exists n0. split; [reflexivity|exact Hne].
+    - left. rewrite win_close_noop; [apply keeps_forest_refl|exact Hu|left; exact Ef]. }
+  destruct a as [id r|y|y|k id|w|w]; cbn [run_act act_ok act_target] in *.
+  - left. apply keeps_forest_tree; [apply win_expose_tree|apply win_expose_orphans].
+  - left. rewrite <- Hrid in Hok. destruct (chain_cases y _ Hu Hok) as [E|(w & p & rest & E)].
+    + unfold win_show. rewrite E. apply keeps_forest_refl.
+    + rewrite (win_show_unfold cfg s y w p rest E). unfold keeps_forest.
+      rewrite win_expose_tree, win_expose_orphans, r_tree_show_pre.
+      split; [apply show_tree_skel|]. split.
+      { unfold show_pre. rewrite orphans_cond. reflexivity. }
+      split.
+      * intros T D Hev. unfold show_tree. destruct (show_link w p).
+        -- apply ev_upd; [apply keeps_shape_link|]. apply ev_upd; [apply keeps_shape_vis|exact Hev].
+        -- apply ev_upd; [apply keeps_shape_vis|exact Hev].
+      * intros x Hx. apply show_tree_vis. intros ->. apply Hx. reflexivity.
+  - left. rewrite <- Hrid in Hok. destruct (chain_cases y _ Hu Hok) as [E|(w & p & rest & E)].
+    + unfold win_hide. rewrite E. apply keeps_forest_refl.
+    + rewrite (win_hide_unfold cfg s y w p rest E). unfold keeps_forest.
+      rewrite win_expose_tree, win_expose_orphans, r_tree_hide_pre.
+      split; [apply hide_tree_skel|]. split.
+      { unfold hide_pre. rewrite orphans_cond. reflexivity. }
+      split.
+      * intros T D Hev. unfold hide_tree.
+        apply ev_upd; [apply keeps_shape_unlink|]. apply ev_upd; [apply keeps_shape_vis|exact Hev].
+      * intros x Hx. apply hide_tree_vis. intros ->. apply Hx. reflexivity.
+  - left. apply keeps_forest_tree; [apply win_restack_tree|].
+    unfold win_restack. destruct (t_parent_id id (r_tree s)); [|reflexivity]. destruct (r_queue s); reflexivity.
+  - destruct (Hclose w) as [H|(n0 & Hf & Hne)]; [left; exact H|right; exists w, n0; tauto].
+  - destruct (Hclose w) as [H|(n0 & Hf & Hne)]; [left; exact H|right; exists w, n0; tauto].
+Qed.
+
+(* consequences of keeping the shape *)
+Lemma keeps_forest_facts s s' y :
+  IP.ids_unique s -> keeps_forest s s' y ->
+  IP.ids_unique s' /\ t_ids (r_tree s') = t_ids (r_tree s) /\
+  t_id (r_tree s') = t_id (r_tree s) /\
+  w_rect (t_info (r_tree s')) = w_rect (t_info (r_tree s)) /\
+  (forall x, f_parent s' x = f_parent s x) /\
+  (forall x, y <> Some x -> In x (t_ids (r_tree s)) -> vis_now s' x = vis_now s x).
+Proof.
+  intros Hfu (Hsk & Hor & _ & Hvis). pose proof (forest_tree_nodup s Hfu) as Hu.
+  pose proof (skel_eq_ids _ _ Hsk) as Hids. destruct (skel_eq_root _ _ Hsk) as [Hid Hrect].
+  assert (Hfu' : IP.ids_unique s').
+  { unfold IP.ids_unique, IP.forest_ids, forest in *. cbn [flat_map] in *.
+    change (IP.t_ids (r_tree s')) with (t_ids (r_tree s')). rewrite Hids, Hor. exact Hfu. }
+  split; [exact Hfu'|]. split; [exact Hids|]. split; [exact Hid|]. split; [exact Hrect|]. split.
+  - intros x. apply f_parent_skel. unfold forest. cbn [map]. rewrite Hsk, Hor. reflexivity.
+  - intros x Hx Hin. rewrite (vis_now_in s x Hu Hin).
+    rewrite (vis_now_in s' x); [apply Hvis; exact Hx| |rewrite Hids; exact Hin].
+    rewrite Hids. exact Hu.
+Qed.
+
+(* an effective close *)
+Lemma close_facts cfg s w n0 :
+  IP.ids_unique s -> t_find w (r_tree s) = Some n0 -> w <> t_id (r_tree s) ->
+  IP.ids_unique (win_close cfg s w) /\
+  r_tree (win_close cfg s w) = IP.cut w (r_tree s) /\
+  r_orphans (win_close cfg s w) = n0 :: r_orphans s /\ t_id n0 = w /\
+  (forall x n, f_find s x = Some n -> vis_now (win_close cfg s w) x = vis_now s x) /\
+  (forall n c, IP.subl n (forest s) -> In c (t_kids n) -> t_id c <> w ->
+               f_parent (win_close cfg s w) (t_id c) = Some (t_id n)) /\
+  (forall x, In x (t_ids (r_tree (win_close cfg s w))) -> In x (t_ids (r_tree s)) /\ x <> w).
+Proof.
+  intros Hfu Hf Hne.
+  destruct (IP.close_props cfg s w n0 Hfu Hf Hne) as [CP1 CP2].
+  destruct (IP.win_close_forest cfg s w n0 Hfu Hf Hne) as [Ht Ho].
+  destruct (IP.t_find_sub _ _ _ Hf) as [Hsub0 Hid0].
+  pose proof (forest_tree_nodup s Hfu) as Hu.
+  split; [exact CP1|]. split; [exact Ht|]. split; [exact Ho|]. split; [exact Hid0|]. split; [|split].
+  - intros x n Hx. destruct (IP.f_find_sub _ _ _ Hx) as [Hs Hid].
+    pose proof (IP.f_find_unique _ _ CP1 (CP2 n Hs)) as Hx'. rewrite IP.cut_id_eq, Hid in Hx'.
+    unfold vis_now, node_now. rewrite Hx, Hx'. apply IP.cut_vis.
+  - intros n c Hs Hc Hcw.
+    pose proof (IP.f_parent_unique _ _ _ CP1 (CP2 n Hs) (IP.cut_kid_in w n c Hc Hcw)) as H.
+    rewrite !IP.cut_id_eq in H. exact H.
+  - intros x Hx. rewrite Ht in Hx.
+    assert (Hperm : Permutation (t_ids (r_tree s)) (t_ids (IP.cut w (r_tree s)) ++ t_ids n0)).
+    { apply (IP.cut_perm w n0 Hid0 (r_tree s) Hu Hsub0). intros E. apply Hne. symmetry. exact E. }
+    split.
+    + apply (Permutation_in _ (Permutation_sym Hperm)). apply in_or_app. left. exact Hx.
+    + intros ->. pose proof (Permutation_NoDup Hperm Hu) as Hnd.
+      apply IP.NoDup_app_inv in Hnd. destruct Hnd as (_ & _ & Hsep).
+      apply (Hsep (t_id n0)); [rewrite Hid0; exact Hx|apply t_id_in].
+Qed.
+
+(* orphans are never taken back *)
+Lemma run_act_orphans cfg rid s a n :
+  IP.ids_unique s -> t_id (r_tree s) = rid -> act_ok rid a ->
+  In n (r_orphans s) -> In n (r_orphans (run_act cfg s a)).
+Proof.
+  intros Hfu Hrid Hok Hn.
+  destruct (run_act_forest cfg rid s a Hfu Hrid Hok) as [(_ & Ho & _)|(w & n0 & Ha & Hf & Hne)].
+  - rewrite Ho. exact Hn.
+  - rewrite <- Hrid in Hne. destruct (close_facts cfg s w n0 Hfu Hf Hne) as (_ & _ & Ho & _).
+    destruct Ha as [->| ->]; cbn [run_act]; rewrite Ho; right; exact Hn.
+Qed.
+
+(* ------------------------------------------------------------------------------------ *)
+(* the invariants are kept                                                               *)
+
+Theorem run_act_g0 cfg rid s a : G0 rid s -> act_ok rid a -> G0 rid (run_act cfg s a).
+Proof.
+  intros (Hfu & Hrid & Hrv & HD) Hok.
+  pose proof (run_act_dmgok cfg s a HD) as HD'.
+  destruct (run_act_forest cfg rid s a Hfu Hrid Hok) as [Hk|(w & n0 & Ha & Hf & Hne)].
+  - destruct (keeps_forest_facts s _ _ Hfu Hk) as (Hfu' & Hids & Hid & _ & _ & Hvis).
+    split; [exact Hfu'|]. split; [rewrite Hid; exact Hrid|]. split; [|exact HD'].
+    pose proof (forest_tree_nodup s Hfu) as Hu. pose proof (forest_tree_nodup _ Hfu') as Hu'.
+    rewrite <- vis_in_root, <- (vis_now_in _ _ Hu' (t_id_in _)), Hid, Hvis.
+    + rewrite (vis_now_in _ _ Hu (t_id_in _)), vis_in_root. exact Hrv.
+    + destruct a; cbn [act_ok act_target] in *; try discriminate;
+        intros E; injection E as E; apply Hok; rewrite <- Hrid; exact E.
+    + apply t_id_in.
+  - rewrite <- Hrid in Hne. destruct (close_facts cfg s w n0 Hfu Hf Hne) as (Hfu' & Ht & _).
+    assert (E : run_act cfg s a = win_close cfg s w) by (destruct Ha as [->| ->]; reflexivity).
+    rewrite E in *. split; [exact Hfu'|]. rewrite Ht. destruct (cut_info w (r_tree s)) as [Hi _].
+    split; [unfold t_id; rewrite Hi; exact Hrid|]. split; [rewrite IP.cut_vis; exact Hrv|exact HD'].
+Qed.
+
+Theorem run_act_gd cfg rid T P s a : Gd rid T P s -> act_ok rid a -> Gd rid T P (run_act cfg s a).
+Proof.
+  intros (HG & (D & Hev & HDo) & HP) Hok. pose proof HG as (Hfu & Hrid & Hrv & HD).
+  split; [apply run_act_g0; assumption|].
+  destruct (run_act_forest cfg rid s a Hfu Hrid Hok) as [Hk|(w & n0 & Ha & Hf & Hne)].
+  - destruct (keeps_forest_facts s _ _ Hfu Hk) as (_ & Hids & Hid & _ & Hpar & _).
+    destruct Hk as (_ & Ho & Hevk & _). split.
+    + exists D. split; [apply Hevk; exact Hev|]. rewrite Ho. exact HDo.
+    + intros x Hx Hxr. rewrite Hpar. apply HP; [rewrite <- Hids; exact Hx|rewrite <- Hid; exact Hxr].
+  - rewrite <- Hrid in Hne.
+    destruct (close_facts cfg s w n0 Hfu Hf Hne) as (Hfu' & Ht & Ho & Hidn & _ & Hpar & Hids).
+    assert (E : run_act cfg s a = win_close cfg s w) by (destruct Ha as [->| ->]; reflexivity).
+    rewrite E. split.
+    + exists (w :: D). split; [rewrite Ht; apply ev_cut; exact Hev|].
+      rewrite Ho. intros x [<-|Hx]; [left; exact Hidn|right; apply HDo; exact Hx].
+    + intros x Hx Hxr. destruct (Hids x Hx) as [Hin Hxw].
+      assert (Hxr' : x <> t_id (r_tree s)).
+      { intros ->. apply Hxr. rewrite Ht. unfold t_id. destruct (cut_info w (r_tree s)) as [-> _]. reflexivity. }
+      rewrite <- (HP x Hin Hxr').
+      (* x is a child of some window of the tree *)
+      pose proof (forest_tree_nodup s Hfu) as Hu.
+      destruct (t_find_some x _ Hu Hin) as [nx Hnx].
+      assert (Hkid : exists n c, subtree n (r_tree s) /\ In c (t_kids n) /\ t_id c = x).
+      { destruct (t_chain x (r_tree s)) as [[|wx [|px restx]]|] eqn:Ech.
+        - exfalso. exact (chain_nonempty _ _ Ech).
+        - exfalso. apply Hxr'. destruct (chain_single _ _ _ Ech) as [_ H]. symmetry. exact H.
+        - destruct (chain_parent x _ wx px restx Hu Ech) as (Hidw & Hwp & Hfp & _).
+          exists px, wx. split; [|split; assumption]. apply (t_find_sub _ _ _ Hfp).
+        - exfalso. exact (chain_none_notin _ _ Ech Hin). }
+      destruct Hkid as (n & c & Hn & Hc & Hidc). subst x.
+      rewrite (Hpar n c (tree_subl s n Hn) Hc Hxw). symmetry. apply (f_parent_tree s n c Hu Hn Hc).
 Qed.
 
 (* ------------------------------------------------------------------------------------ *)
@@ -203,7 +417,14 @@ Theorem run_act_cov_mono cfg s a :
   DmgOK s -> r_fault (run_act cfg s a) = false ->
   forall p, covered (r_damage s) p -> covered (r_damage (run_act cfg s a)) p.
 Proof.
-  intros HD Hf p Hp. destruct a as [id r|id|id|k id]; cbn [run_act] in *.
+  intros HD Hf p Hp.
+  assert (Hclose : forall id, r_fault (win_close cfg s id) = false -> covered (r_damage (win_close cfg s id)) p).
+  { intros id. destruct (win_close_shape cfg s id) as [E|(X & HX & [E|(y & r & E)])]; rewrite E; intros Hf'.
+    - exact Hp.
+    - destruct HX as (-> & _). exact Hp.
+    - apply win_expose_cov_mono; [apply (same_dmg_dmgok s X HX HD)|exact Hf'|].
+      destruct HX as (-> & _). exact Hp. }
+  destruct a as [id r|id|id|k id|id|id]; cbn [run_act] in *; try (apply Hclose; exact Hf).
   - apply win_expose_cov_mono; assumption.
   - destruct (win_show_shape cfg s id) as [E|(X & y & ex & HX & E & _)]; rewrite E in *; [exact Hp|].
     apply win_expose_cov_mono; [apply (same_dmg_dmgok s X HX HD)|exact Hf|].
@@ -218,139 +439,326 @@ Proof.
 Qed.
 
 (* ------------------------------------------------------------------------------------ *)
-(* locality                                                                              *)
+(* locality: a show, hide or close of a window that matters at q0 covers q0               *)
 
-Lemma hide_local cfg T0 s y q0 :
-  Gd T0 s -> y <> t_id (r_tree s) -> r_fault (win_hide cfg s y) = false ->
-  cell_in (selfrect (t_info (r_tree s))) q0 ->
-  In y (rel_ids (vis_now s) (r_tree s) q0) ->
-  covered (r_damage (win_hide cfg s y)) q0.
+Lemma rel_in_tree0 V t q y : In y (rel_ids V t q) -> In y (t_ids t).
 Proof.
-  intros (Hu & Hsk & Hrv & HD) Hy Hf Hq0 Hrel.
-  destruct (chain_cases y _ Hu Hy) as [E|(w & p & rest & Ech)].
-  { exfalso. apply (chain_none_notin _ _ E).
-    apply rel_ids_below in Hrel. destruct (r_tree s) as [i ch]. cbn [t_ids t_kids] in *. right. exact Hrel. }
-  rewrite (win_hide_unfold cfg s y w p rest Ech) in *.
-  destruct (chain_parent y _ w p rest Hu Ech) as (Hidw & Hwp & Hfp & Hfw & Hne & Hpin).
-  destruct (update_kc _ y (t_id p) (keeps_id_vis false) _ p w Hu Hfp Hwp Hidw) as [D Hkc].
-  set (tr1 := t_update (fun j => set_vis j false) y (r_tree s)) in *.
-  set (st1 := hide_pre cfg s y p) in *.
-  assert (Hg : geq_tree tr1 (r_tree st1)).
-  { subst st1. rewrite r_tree_hide_pre. unfold hide_tree. fold tr1. apply geq_update. apply keeps_geo_unlink. }
-  assert (Hv1 : w_vis (t_info tr1) = true) by (rewrite (kc_info _ _ _ _ _ _ Hkc); exact Hrv).
-  pose proof (same_dmg_hide_pre cfg s y p) as HX. fold st1 in HX.
-  assert (Hne1 : all_nonempty (r_damage st1)).
-  { destruct (same_dmg_dmgok s st1 HX HD) as [_ H]. apply H.
-    apply (win_expose_fault _ _ _ Hf). }
-  destruct (expose_covers_kc st1 (t_id p) (w_rect (t_info w)) _ _ _ tr1 D Hkc Hg Hv1 Hne1 Hf) as [_ Hcov].
-  destruct (rel_reach (vis_now s) _ _ _ _ _ D Hkc Hu (Vok_self _ Hu) w q0 Hwp) as (q' & Hr & Hq').
-  { rewrite Hidw. exact Hrel. }
-  apply (Hcov q0 q'); [|exact Hr|apply cell_inb_iff; exact Hq'].
-  rewrite (kc_info _ _ _ _ _ _ Hkc). exact Hq0.
+  intros Hrel. apply rel_ids_below in Hrel. destruct t as [i ch]. cbn [t_ids t_kids] in *.
+  right. exact Hrel.
 Qed.
 
-Lemma show_local cfg T0 s y q0 :
-  Gd T0 s -> y <> t_id (r_tree s) -> r_fault (win_show cfg s y) = false ->
-  cell_in (selfrect (t_info (r_tree s))) q0 ->
-  In y (rel_ids (vis_now s) (r_tree s) q0) ->
-  covered (r_damage (win_show cfg s y)) q0.
+Section local.
+  Variables (cfg : defects) (s : root) (q0 : cell).
+  Hypothesis Hu : NoDup (t_ids (r_tree s)).
+  Hypothesis Hrv : w_vis (t_info (r_tree s)) = true.
+  Hypothesis HD : DmgOK s.
+  Hypothesis Hq0 : cell_in (selfrect (t_info (r_tree s))) q0.
+
+  Lemma rel_in_tree y : In y (rel_ids (vis_now s) (r_tree s) q0) -> In y (t_ids (r_tree s)).
+  Proof. apply rel_in_tree0. Qed.
+
+  Lemma hide_local y :
+    y <> t_id (r_tree s) -> r_fault (win_hide cfg s y) = false ->
+    In y (rel_ids (vis_now s) (r_tree s) q0) ->
+    covered (r_damage (win_hide cfg s y)) q0.
+  Proof.
+    intros Hy Hf Hrel.
+    destruct (chain_cases y _ Hu Hy) as [E|(w & p & rest & Ech)].
+    { exfalso. exact (chain_none_notin _ _ E (rel_in_tree y Hrel)). }
+    rewrite (win_hide_unfold cfg s y w p rest Ech) in *.
+    destruct (chain_parent y _ w p rest Hu Ech) as (Hidw & Hwp & Hfp & Hfw & Hne & Hpin).
+    destruct (update_kc _ y (t_id p) (keeps_id_vis false) _ p w Hu Hfp Hwp Hidw) as [D Hkc].
+    set (tr1 := t_update (fun j => set_vis j false) y (r_tree s)) in *.
+    set (st1 := hide_pre cfg s y p) in *.
+    assert (Hg : geq_tree tr1 (r_tree st1)).
+    { subst st1. rewrite r_tree_hide_pre. unfold hide_tree. fold tr1. apply geq_update. apply keeps_geo_unlink. }
+    assert (Hv1 : w_vis (t_info tr1) = true) by (rewrite (kc_info _ _ _ _ _ _ Hkc); exact Hrv).
+    pose proof (same_dmg_hide_pre cfg s y p) as HX. fold st1 in HX.
+    assert (Hne1 : all_nonempty (r_damage st1)).
+    { destruct (same_dmg_dmgok s st1 HX HD) as [_ H]. apply H. apply (win_expose_fault _ _ _ Hf). }
+    destruct (expose_covers_kc st1 (t_id p) (w_rect (t_info w)) _ _ _ tr1 D Hkc Hg Hv1 Hne1 Hf) as [_ Hcov].
+    destruct (rel_reach (vis_now s) _ _ _ _ _ D Hkc Hu (Vok_now _ Hu) w q0 Hwp) as (q' & Hr & Hq').
+    { rewrite Hidw. exact Hrel. }
+    apply (Hcov q0 q'); [|exact Hr|apply cell_inb_iff; exact Hq'].
+    rewrite (kc_info _ _ _ _ _ _ Hkc). exact Hq0.
+  Qed.
+
+  Lemma show_local y :
+    y <> t_id (r_tree s) -> r_fault (win_show cfg s y) = false ->
+    In y (rel_ids (vis_now s) (r_tree s) q0) ->
+    covered (r_damage (win_show cfg s y)) q0.
+  Proof.
+    intros Hy Hf Hrel.
+    destruct (chain_cases y _ Hu Hy) as [E|(w & p & rest & Ech)].
+    { exfalso. exact (chain_none_notin _ _ E (rel_in_tree y Hrel)). }
+    rewrite (win_show_unfold cfg s y w p rest Ech) in *.
+    destruct (chain_parent y _ w p rest Hu Ech) as (Hidw & Hwp & Hfp & Hfw & Hne & Hpin).
+    destruct (update_kc _ y (t_id p) (keeps_id_vis true) _ p w Hu Hfp Hwp Hidw) as [D Hkc].
+    set (tr1 := t_update (fun j => set_vis j true) y (r_tree s)) in *.
+    set (st1 := show_pre cfg s y w p) in *.
+    assert (Hg : geq_tree tr1 (r_tree st1)).
+    { subst st1. rewrite r_tree_show_pre. unfold show_tree. fold tr1.
+      destruct (show_link w p); [apply geq_update; apply keeps_geo_link|apply geq_refl]. }
+    assert (Hv1 : w_vis (t_info tr1) = true) by (rewrite (kc_info _ _ _ _ _ _ Hkc); exact Hrv).
+    assert (Hu1 : NoDup (t_ids tr1)) by (subst tr1; rewrite update_ids by apply keeps_id_vis; exact Hu).
+    pose proof (same_dmg_show_pre cfg s y w p) as HX. fold st1 in HX.
+    assert (Hne1 : all_nonempty (r_damage st1)).
+    { destruct (same_dmg_dmgok s st1 HX HD) as [_ H]. apply H. apply (win_expose_fault _ _ _ Hf). }
+    pose (c' := Node (set_vis (t_info w) true) (t_kids w)).
+    assert (Hc' : In c' (map (upd_child (fun j => set_vis j true) y) (t_kids p))).
+    { apply (upd_child_in_fwd (fun j => set_vis j true) y (t_kids p) w Hwp Hidw). }
+    destruct (kc_child_path _ _ _ _ _ _ c' Hkc Hu1 Hc') as (pth & Hp & Hm).
+    assert (Hidc : t_id c' = y) by (rewrite <- Hidw; reflexivity).
+    rewrite Hidc in Hp.
+    destruct (expose_covers_gen st1 y None tr1 (pth ++ [c']) Hp Hg Hv1) as [_ Hcov].
+    { intros _ H. destruct pth; discriminate. }
+    { exact Hne1. }
+    { exact Hf. }
+    destruct (rel_reach (vis_now s) _ _ _ _ _ D Hkc Hu (Vok_now _ Hu) w q0 Hwp) as (q' & Hr & Hq').
+    { rewrite Hidw. exact Hrel. }
+    apply (Hcov q0 (fst q' - top (w_rect (t_info w)), snd q' - left (w_rect (t_info w)))).
+    - rewrite (kc_info _ _ _ _ _ _ Hkc). exact Hq0.
+    - rewrite map_app, reach_app. rewrite <- Hm, map_map in Hr. rewrite Hr.
+      cbn [map reach]. unfold geo, c'. cbn [fst snd t_info set_vis w_vis w_rect andb].
+      rewrite Hq'. reflexivity.
+    - exact I.
+  Qed.
+
+  (* closing a VISIBLE window that matters *)
+  Lemma close_local y :
+    y <> t_id (r_tree s) -> r_fault (win_close cfg s y) = false ->
+    In y (rel_ids (vis_now s) (r_tree s) q0) -> vis_now s y = true ->
+    covered (r_damage (win_close cfg s y)) q0.
+  Proof.
+    intros Hy Hf Hrel Hvis.
+    destruct (chain_cases y _ Hu Hy) as [E|(w & p & rest & Ech)].
+    { exfalso. exact (chain_none_notin _ _ E (rel_in_tree y Hrel)). }
+    destruct (chain_parent y _ w p rest Hu Ech) as (Hidw & Hwp & Hfp & Hfw & Hne & Hpin).
+    destruct (win_close_unfold cfg s y w p rest Ech) as (st1 & HX & Ht1 & E).
+    rewrite (vis_now_tree s y w Hfw) in Hvis. rewrite E, Hvis in *.
+    destruct (upd_kids_kc (kids_remove y) (t_id p) _ p Hu Hfp) as [D Hkc].
+    set (tr1 := t_upd_kids (kids_remove y) (t_id p) (r_tree s)) in *.
+    assert (Hg : geq_tree tr1 (r_tree st1)).
+    { rewrite Ht1. unfold close_tree. fold tr1. apply geq_update. apply keeps_geo_unlink. }
+    assert (Hv1 : w_vis (t_info tr1) = true) by (rewrite (kc_info _ _ _ _ _ _ Hkc); exact Hrv).
+    assert (Hne1 : all_nonempty (r_damage st1)).
+    { destruct (same_dmg_dmgok s st1 HX HD) as [_ H]. apply H. apply (win_expose_fault _ _ _ Hf). }
+    destruct (expose_covers_kc st1 (t_id p) (w_rect (t_info w)) _ _ _ tr1 D Hkc Hg Hv1 Hne1 Hf) as [_ Hcov].
+    destruct (rel_reach (vis_now s) _ _ _ _ _ D Hkc Hu (Vok_now _ Hu) w q0 Hwp) as (q' & Hr & Hq').
+    { rewrite Hidw. exact Hrel. }
+    apply (Hcov q0 q'); [|exact Hr|apply cell_inb_iff; exact Hq'].
+    rewrite (kc_info _ _ _ _ _ _ Hkc). exact Hq0.
+  Qed.
+End local.
+
+Lemma f_find_in_tree s x n : t_find x (r_tree s) = Some n -> f_find s x = Some n.
+Proof. intros H. unfold f_find, forest. cbn [first_some]. rewrite H. reflexivity. Qed.
+
+(* a window that matters is a child of a window of the tree: it has a parent *)
+Lemma rel_parent V s q x :
+  NoDup (t_ids (r_tree s)) -> In x (rel_ids V (r_tree s) q) ->
+  exists n c, subtree n (r_tree s) /\ In c (t_kids n) /\ t_id c = x /\ f_parent s x = Some (t_id n).
 Proof.
-  intros (Hu & Hsk & Hrv & HD) Hy Hf Hq0 Hrel.
-  destruct (chain_cases y _ Hu Hy) as [E|(w & p & rest & Ech)].
-  { exfalso. apply (chain_none_notin _ _ E).
-    apply rel_ids_below in Hrel. destruct (r_tree s) as [i ch]. cbn [t_ids t_kids] in *. right. exact Hrel. }
-  rewrite (win_show_unfold cfg s y w p rest Ech) in *.
-  destruct (chain_parent y _ w p rest Hu Ech) as (Hidw & Hwp & Hfp & Hfw & Hne & Hpin).
-  destruct (update_kc _ y (t_id p) (keeps_id_vis true) _ p w Hu Hfp Hwp Hidw) as [D Hkc].
-  set (tr1 := t_update (fun j => set_vis j true) y (r_tree s)) in *.
-  set (st1 := show_pre cfg s y w p) in *.
-  assert (Hg : geq_tree tr1 (r_tree st1)).
-  { subst st1. rewrite r_tree_show_pre. unfold show_tree. fold tr1.
-    destruct (show_link w p); [apply geq_update; apply keeps_geo_link|apply geq_refl]. }
-  assert (Hv1 : w_vis (t_info tr1) = true) by (rewrite (kc_info _ _ _ _ _ _ Hkc); exact Hrv).
-  assert (Hu1 : NoDup (t_ids tr1)) by (subst tr1; rewrite update_ids by apply keeps_id_vis; exact Hu).
-  pose proof (same_dmg_show_pre cfg s y w p) as HX. fold st1 in HX.
-  assert (Hne1 : all_nonempty (r_damage st1)).
-  { destruct (same_dmg_dmgok s st1 HX HD) as [_ H]. apply H.
-    apply (win_expose_fault _ _ _ Hf). }
-  pose (c' := Node (set_vis (t_info w) true) (t_kids w)).
-  assert (Hc' : In c' (map (upd_child (fun j => set_vis j true) y) (t_kids p))).
-  { apply (upd_child_in_fwd (fun j => set_vis j true) y (t_kids p) w Hwp Hidw). }
-  destruct (kc_child_path _ _ _ _ _ _ c' Hkc Hu1 Hc') as (pth & Hp & Hm).
-  assert (Hidc : t_id c' = y) by (rewrite <- Hidw; reflexivity).
-  rewrite Hidc in Hp.
-  destruct (expose_covers_gen st1 y None tr1 (pth ++ [c']) Hp Hg Hv1) as [_ Hcov].
-  { intros _ H. destruct pth; discriminate. }
-  { exact Hne1. }
-  { exact Hf. }
-  destruct (rel_reach (vis_now s) _ _ _ _ _ D Hkc Hu (Vok_self _ Hu) w q0 Hwp) as (q' & Hr & Hq').
-  { rewrite Hidw. exact Hrel. }
-  apply (Hcov q0 (fst q' - top (w_rect (t_info w)), snd q' - left (w_rect (t_info w)))).
-  - rewrite (kc_info _ _ _ _ _ _ Hkc). exact Hq0.
-  - rewrite map_app, reach_app. rewrite <- Hm, map_map in Hr. rewrite Hr.
-    cbn [map reach]. unfold geo, c'. cbn [fst snd t_info set_vis w_vis w_rect andb].
-    rewrite Hq'. reflexivity.
-  - exact I.
+  intros Hu Hx. destruct (rel_ids_kid V _ _ _ Hx) as (n & c & Hn & Hc & Hid).
+  exists n, c. split; [exact Hn|]. split; [exact Hc|]. split; [exact Hid|].
+  rewrite <- Hid. apply (f_parent_tree s n c Hu Hn Hc).
 Qed.
 
-Theorem run_act_local cfg T0 s a q0 :
-  Gd T0 s -> act_ok (t_id T0) a -> r_fault (run_act cfg s a) = false ->
-  cell_in (selfrect (t_info T0)) q0 ->
+Theorem run_act_local cfg rid s a q0 :
+  G0 rid s -> act_ok rid a -> r_fault (run_act cfg s a) = false ->
+  cell_in (selfrect (t_info (r_tree s))) q0 ->
   ~ covered (r_damage (run_act cfg s a)) q0 ->
-  forall x, In x (rel_ids (vis_now s) (r_tree s) q0) -> vis_now (run_act cfg s a) x = vis_now s x.
+  forall x, In x (rel_ids (vis_now s) (r_tree s) q0) ->
+    vis_now (run_act cfg s a) x = vis_now s x /\
+    (f_parent (run_act cfg s a) x = f_parent s x \/ vis_now s x = false).
 Proof.
-  intros HG Hok Hf Hq0 Hnc x Hx.
-  pose proof HG as (Hu & Hsk & Hrv & HD).
-  destruct (skel_eq_root _ _ Hsk) as [Hid Hrect].
-  assert (Hq0' : cell_in (selfrect (t_info (r_tree s))) q0).
-  { unfold selfrect in *. rewrite Hrect. exact Hq0. }
-  assert (Hok' : act_ok (t_id (r_tree s)) a) by (unfold t_id; rewrite Hid; exact Hok).
-  destruct (run_act_tree cfg s a Hu Hok') as [_ Hvis].
-  destruct a as [id r|y|y|k id]; cbn [act_ok run_act] in *; try (apply Hvis; exact I).
-  - destruct (Z.eq_dec x y) as [->|Hne]; [|apply Hvis; exact Hne].
-    exfalso. apply Hnc. apply (show_local cfg T0 s y q0 HG Hok' Hf Hq0' Hx).
-  - destruct (Z.eq_dec x y) as [->|Hne]; [|apply Hvis; exact Hne].
-    exfalso. apply Hnc. apply (hide_local cfg T0 s y q0 HG Hok' Hf Hq0' Hx).
+  intros (Hfu & Hrid & Hrv & HD) Hok Hf Hq0 Hnc x Hx.
+  pose proof (forest_tree_nodup s Hfu) as Hu.
+  pose proof (rel_in_tree0 _ _ _ x Hx) as Hxin.
+  destruct (run_act_forest cfg rid s a Hfu Hrid Hok) as [Hk|(w & n0 & Ha & Hfw & Hne)].
+  - destruct (keeps_forest_facts s _ _ Hfu Hk) as (_ & _ & _ & _ & Hpar & Hvis).
+    split; [|left; apply Hpar].
+    apply Hvis; [|exact Hxin].
+    destruct a as [id r|y|y|k id|w|w]; cbn [act_target act_ok run_act] in *; try discriminate.
+    + intros E. injection E as ->. apply Hnc. rewrite <- Hrid in Hok.
+      apply (show_local cfg s q0 Hu Hrv HD Hq0 x Hok Hf Hx).
+    + intros E. injection E as ->. apply Hnc. rewrite <- Hrid in Hok.
+      apply (hide_local cfg s q0 Hu Hrv HD Hq0 x Hok Hf Hx).
+  - rewrite <- Hrid in Hne.
+    assert (E : run_act cfg s a = win_close cfg s w) by (destruct Ha as [->| ->]; reflexivity).
+    rewrite E in *.
+    destruct (close_facts cfg s w n0 Hfu Hfw Hne) as (_ & _ & _ & _ & Hvis & Hpar & _).
+    destruct (t_find_some x _ Hu Hxin) as [nx Hnx].
+    split; [apply (Hvis x nx (f_find_in_tree s x nx Hnx))|].
+    destruct (Z.eq_dec x w) as [->|Hxw].
+    + right. destruct (vis_now s w) eqn:Ev; [|reflexivity]. exfalso. apply Hnc.
+      apply (close_local cfg s q0 Hu Hrv HD Hq0 w Hne Hf Hx Ev).
+    + left. destruct (rel_parent (vis_now s) s q0 x Hu Hx) as (n & c & Hn & Hc & Hid & Hp).
+      rewrite Hp. rewrite <- Hid. apply (Hpar n c (tree_subl s n Hn) Hc). rewrite Hid. exact Hxw.
 Qed.
 
 (* ------------------------------------------------------------------------------------ *)
 (* every handler call is a step                                                          *)
 
 Section steps.
-  Variables (cfg : defects) (T0 : wtree) (q0 : cell) (V : Z -> bool).
-  Hypothesis Hq0 : cell_in (selfrect (t_info T0)) q0.
+  Variables (cfg : defects) (rid : Z) (q0 : cell).
 
-  Lemma run_act_step s a :
-    Gd T0 s -> act_ok (t_id T0) a ->
-    Gd T0 (run_act cfg s a) /\ St q0 V T0 s (run_act cfg s a).
+  (* ... seen from the tree T a traversal walks *)
+  Lemma run_act_step T P V s a :
+    cell_in (selfrect (t_info T)) q0 ->
+    Gd rid T P s -> act_ok rid a ->
+    Gd rid T P (run_act cfg s a) /\ St q0 V P T s (run_act cfg s a).
   Proof.
-    intros HG Hok. split; [apply run_act_gd; assumption|].
-    intros Hf Hnc. pose proof HG as (Hu & Hsk & Hrv & HD).
+    intros HqT HGd Hok. split; [apply run_act_gd; assumption|].
+    intros Hf Hnc. pose proof HGd as (HG & (D & Hev & HDo) & HP).
+    pose proof HG as (Hfu & Hrid & Hrv & HD).
+    pose proof (forest_tree_nodup s Hfu) as Hu.
     split; [apply (run_act_fault cfg s a Hf)|]. split.
-    - intros Hc. apply Hnc. apply (run_act_cov_mono cfg s a HD Hf). exact Hc.
-    - intros HO x Hx. unfold OKs, RelSet in *.
-      rewrite (run_act_local cfg T0 s a q0 HG Hok Hf Hq0 Hnc); [apply HO; exact Hx|].
-      rewrite (rel_ids_skel (vis_now s) T0 (r_tree s) q0 Hsk).
-      rewrite (proj2 (live_agree V (vis_now s) T0 q0 HO)). exact Hx.
+    { intros Hc. apply Hnc. apply (run_act_cov_mono cfg s a HD Hf). exact Hc. }
+    intros HO x Hx. unfold OKs, RelSet in *.
+    destruct (evolves_root _ _ _ Hev) as [_ Hrect].
+    assert (Hq0 : cell_in (selfrect (t_info (r_tree s))) q0).
+    { unfold selfrect in *. rewrite Hrect. exact HqT. }
+    (* a cut window is the root of a detached subtree: it has no parent *)
+    assert (Horph : forall s1 y, IP.ids_unique s1 -> In y (map t_id (r_orphans s1)) -> f_parent s1 y = None).
+    { intros s1 y Hfu1 Hy. apply in_map_iff in Hy. destruct Hy as (n & <- & Hn).
+      apply orphan_root_noparent; assumption. }
+    assert (HDV : forall y, In y D -> In y (rel_ids V T q0) -> V y = false).
+    { intros y Hy Hyr. rewrite <- (HO y Hyr). unfold att. rewrite (Horph s y Hfu (HDo y Hy)). reflexivity. }
+    destruct (live_evolves V T (r_tree s) D q0 Hev HDV) as (_ & Hincl & Hsplit).
+    (* on the windows that matter in the current tree V is the current flag *)
+    assert (Hcur : forall y, In y (rel_ids V (r_tree s) q0) -> vis_now s y = V y).
+    { intros y Hy. rewrite <- (HO y (Hincl y Hy)). unfold att.
+      destruct (rel_parent V s q0 y Hu Hy) as (n & c & Hn & Hc & Hid & Hp).
+      assert (Hyin : In y (t_ids (r_tree s))).
+      { apply rel_ids_below in Hy. destruct (r_tree s) as [i ch]. cbn [t_ids t_kids] in *. right. exact Hy. }
+      assert (Hyr : y <> t_id (r_tree s)).
+      { intros ->. apply rel_ids_below in Hy. destruct (r_tree s) as [i ch]. cbn [t_ids t_kids t_id t_info] in *.
+        inversion Hu; subst. contradiction. }
+      rewrite <- (HP y Hyin Hyr), Hp. cbn [opt_is]. rewrite Z.eqb_refl. reflexivity. }
+    pose proof (proj2 (live_agree V (vis_now s) (r_tree s) q0 Hcur)) as Ecrel.
+    destruct (Hsplit x Hx) as [HxD|Hxc].
+    - (* cut earlier: detached then, detached now *)
+      rewrite (HDV x HxD Hx). unfold att.
+      assert (Hfu' : IP.ids_unique (run_act cfg s a)) by (apply (run_act_g0 cfg rid s a HG Hok)).
+      rewrite (Horph _ x Hfu'); [reflexivity|].
+      specialize (HDo x HxD). apply in_map_iff in HDo. destruct HDo as (n & <- & Hn).
+      apply in_map. apply (run_act_orphans cfg rid s a n Hfu Hrid Hok Hn).
+    - rewrite <- Ecrel in Hxc.
+      destruct (run_act_local cfg rid s a q0 HG Hok Hf Hq0 Hnc x Hxc) as [Ev [Ep|Ev0]].
+      + rewrite <- (HO x Hx). unfold att. rewrite Ev, Ep. reflexivity.
+      + rewrite <- (HO x Hx). unfold att. rewrite Ev, Ev0, !andb_false_r. reflexivity.
   Qed.
 
-  Lemma run_acts_step acts : (forall a, In a acts -> act_ok (t_id T0) a) ->
-    forall s, Gd T0 s -> Gd T0 (run_acts cfg acts s) /\ St q0 V T0 s (run_acts cfg acts s).
+  Lemma run_acts_step T P V acts : (forall a, In a acts -> act_ok rid a) ->
+    cell_in (selfrect (t_info T)) q0 ->
+    forall s, Gd rid T P s -> Gd rid T P (run_acts cfg acts s) /\ St q0 V P T s (run_acts cfg acts s).
   Proof.
-    unfold run_acts. induction acts as [|a rest IH]; intros Hok s HG.
+    intros Hok HqT. unfold run_acts. induction acts as [|a rest IH]; intros s HG.
     - cbn [fold_left]. split; [exact HG|apply St_refl].
-    - cbn [fold_left]. destruct (run_act_step s a HG (Hok a (or_introl eq_refl))) as [HG1 HS1].
+    - cbn [fold_left]. destruct (run_act_step T P V s a HqT HG (Hok a (or_introl eq_refl))) as [HG1 HS1].
       destruct (IH (fun a' H => Hok a' (or_intror H)) _ HG1) as [HG2 HS2].
       split; [exact HG2|]. eapply St_trans; eassumption.
   Qed.
 
-  Lemma re_handler_step hnd racts :
-    (forall id a, In a (racts id) -> act_ok (t_id T0) a) ->
-    forall id r sb, Gd T0 (fst sb) ->
-      Gd T0 (fst (re_handler cfg hnd racts id r sb)) /\
-      St q0 V T0 (fst sb) (fst (re_handler cfg hnd racts id r sb)).
+  (* ... and seen from the current tree: the owner of q0 stays *)
+  Lemma run_act_step0 s a :
+    G0 rid s -> act_ok rid a -> cell_in (selfrect (t_info (r_tree s))) q0 ->
+    G0 rid (run_act cfg s a) /\ St0 q0 s (run_act cfg s a) /\
+    w_rect (t_info (r_tree (run_act cfg s a))) = w_rect (t_info (r_tree s)).
   Proof.
-    intros Hok id r sb HG. unfold re_handler. cbn [fst]. apply run_acts_step; [|exact HG].
-    intros a Ha. apply (Hok id a Ha).
+    intros HG Hok Hq0. pose proof HG as (Hfu & Hrid & Hrv & HD).
+    pose proof (run_act_g0 cfg rid s a HG Hok) as HG'.
+    pose proof (forest_tree_nodup s Hfu) as Hu.
+    assert (Hu' : NoDup (t_ids (r_tree (run_act cfg s a)))).
+    { destruct HG' as (Hfu' & _). apply (forest_tree_nodup _ Hfu'). }
+    split; [exact HG'|]. split.
+    - intros Hf Hnc. split; [apply (run_act_fault cfg s a Hf)|]. split.
+      { intros Hc. apply Hnc. apply (run_act_cov_mono cfg s a HD Hf). exact Hc. }
+      pose proof (run_act_local cfg rid s a q0 HG Hok Hf Hq0 Hnc) as Hloc.
+      rewrite <- (own_self (vis_now (run_act cfg s a)) _ (Vok_now _ Hu') q0).
+      rewrite <- (own_self (vis_now s) _ (Vok_now _ Hu) q0).
+      destruct (run_act_forest cfg rid s a Hfu Hrid Hok) as [Hk|(w & n0 & Ha & Hfw & Hne)].
+      + destruct Hk as (Hsk & _).
+        rewrite (own_skel (vis_now (run_act cfg s a)) (r_tree s) _ q0 Hsk).
+        apply (live_agree (vis_now s) (vis_now (run_act cfg s a)) (r_tree s) q0).
+        intros x Hx. apply (Hloc x Hx).
+      + rewrite <- Hrid in Hne.
+        assert (E : run_act cfg s a = win_close cfg s w) by (destruct Ha as [->| ->]; reflexivity).
+        rewrite E in *.
+        destruct (close_facts cfg s w n0 Hfu Hfw Hne) as (_ & Ht & _).
+        rewrite Ht.
+        assert (Hw : In w (rel_ids (vis_now s) (r_tree s) q0) -> vis_now s w = false).
+        { intros Hwr. destruct (vis_now s w) eqn:Ev; [|reflexivity]. exfalso. apply Hnc.
+          apply (close_local cfg s q0 Hu Hrv HD Hq0 w Hne Hf Hwr Ev). }
+        destruct (live_cut (vis_now s) w (r_tree s) q0 Hw) as (F1 & F2 & _).
+        rewrite <- F1.
+        apply (live_agree (vis_now s) (vis_now (win_close cfg s w)) (IP.cut w (r_tree s)) q0).
+        intros x Hx. apply (Hloc x (F2 x Hx)).
+    - destruct (run_act_forest cfg rid s a Hfu Hrid Hok) as [Hk|(w & n0 & Ha & Hfw & Hne)].
+      + destruct (keeps_forest_facts s _ _ Hfu Hk) as (_ & _ & _ & Hr & _). exact Hr.
+      + rewrite <- Hrid in Hne.
+        assert (E : run_act cfg s a = win_close cfg s w) by (destruct Ha as [->| ->]; reflexivity).
+        rewrite E. destruct (close_facts cfg s w n0 Hfu Hfw Hne) as (_ & Ht & _).
+        rewrite Ht. apply cut_info.
   Qed.
 End steps.
+
+(* the root's rectangle is R *)
+Definition G1 (rid : Z) (R : rect) (s : root) : Prop := G0 rid s /\ w_rect (t_info (r_tree s)) = R.
+
+Section handler_steps.
+  Variables (cfg : defects) (rid : Z) (R : rect) (q0 : cell) (hnd : handler) (racts : Z -> list ract).
+  Hypothesis Hq0 : cell_in (mkRect 0 0 (lines R) (cols R)) q0.
+  Hypothesis Hok : forall id a, In a (racts id) -> act_ok rid a.
+
+  Lemma run_acts_step0 acts : (forall a, In a acts -> act_ok rid a) ->
+    forall s, G1 rid R s -> G1 rid R (run_acts cfg acts s) /\ St0 q0 s (run_acts cfg acts s).
+  Proof.
+    intros Hoks. unfold run_acts. induction acts as [|a rest IH]; intros s HG.
+    - cbn [fold_left]. split; [exact HG|apply St0_refl].
+    - cbn [fold_left]. destruct HG as [HG HR].
+      destruct (run_act_step0 cfg rid q0 s a HG (Hoks a (or_introl eq_refl))) as (HG1 & HS1 & HR1).
+      { unfold selfrect. rewrite HR. exact Hq0. }
+      destruct (IH (fun a' H => Hoks a' (or_intror H)) (run_act cfg s a)) as [HG2 HS2].
+      { split; [exact HG1|]. rewrite HR1. exact HR. }
+      split; [exact HG2|]. eapply St0_trans; eassumption.
+  Qed.
+
+  Lemma re_handler_step0 id r sb :
+    G1 rid R (fst sb) ->
+    G1 rid R (fst (re_handler cfg hnd racts id r sb)) /\
+    St0 q0 (fst sb) (fst (re_handler cfg hnd racts id r sb)).
+  Proof.
+    intros HG. unfold re_handler. cbn [fst]. apply run_acts_step0; [|exact HG].
+    intros a Ha. apply (Hok id a Ha).
+  Qed.
+
+  Lemma re_handler_step T P V id r sb :
+    w_rect (t_info T) = R -> Gd rid T P (fst sb) ->
+    Gd rid T P (fst (re_handler cfg hnd racts id r sb)) /\
+    St q0 V P T (fst sb) (fst (re_handler cfg hnd racts id r sb)).
+  Proof.
+    intros HR HG. unfold re_handler. cbn [fst]. apply run_acts_step; [|unfold selfrect; rewrite HR; exact Hq0|exact HG].
+    intros a Ha. apply (Hok id a Ha).
+  Qed.
+
+  (* a rectangle starts on the tree of the current state *)
+  Lemma rect_start s :
+    G1 rid R s ->
+    (Gd rid (r_tree s) (f_parent s) s /\ w_rect (t_info (r_tree s)) = R) /\
+    ParOK (f_parent s) (r_tree s) /\ Vok (vis_now s) (r_tree s) /\
+    OKs q0 (vis_now s) (f_parent s) (r_tree s) s.
+  Proof.
+    intros [HG HR]. pose proof HG as (Hfu & _). pose proof (forest_tree_nodup s Hfu) as Hu.
+    split; [split; [|exact HR]|split; [|split]].
+    - split; [exact HG|]. split.
+      + exists []. split; [apply ev_refl|intros x []].
+      + intros x _ _. reflexivity.
+    - intros n c Hn Hc. apply (f_parent_tree s n c Hu Hn Hc).
+    - apply Vok_now. exact Hu.
+    - intros x Hx. unfold RelSet in Hx. unfold att.
+      destruct (rel_parent (vis_now s) s q0 x Hu Hx) as (n & c & _ & _ & _ & Hp).
+      rewrite Hp. cbn [opt_is]. rewrite Z.eqb_refl. reflexivity.
+  Qed.
+End handler_steps.
